@@ -215,5 +215,40 @@ def detect (init : Bytes) (ds : List (Option DetOut)) : DetState :=
   let st := ds.foldl detectStep { res := ⟨[], init⟩ }
   if st.anyErr && st.conflictSeen then { st with res := { st.res with schema := [] } } else st
 
+/-! ### resource.New(ctx, opts…) (config.go, resource.go) -/
+
+/-- the two environment values the `fromEnv` detector reads -/
+structure Env where
+  attrs : Bytes
+  svc : Bytes
+
+/-- the options of config.go (every other `With…` is `WithDetectors` of built-in detectors) -/
+inductive Opt where
+  | withSchemaURL (s : Bytes)
+  | withDetectors (ds : List (Option DetOut))   -- what each detector's `Detect` returns; `none` = nil Detector
+  | withAttributes (kvs : List KV)              -- WithDetectors(detectAttributes{kvs})
+  | withFromEnv                                 -- WithDetectors(fromEnv{})
+
+structure Cfg where
+  detectors : List (Option DetOut) := []
+  schemaURL : Bytes := []
+
+/-- the detectors an option appends (`detectorsOption.apply`: every one of them, in order) -/
+def optDetectors (env : Env) : Opt → List (Option DetOut)
+  | .withSchemaURL _ => []
+  | .withDetectors ds => ds
+  | .withAttributes kvs => [some ⟨some (newSchemaless kvs), none⟩]
+  | .withFromEnv => [some ⟨some (fromEnv env.attrs env.svc).1, (fromEnv env.attrs env.svc).2.1⟩]
+
+/-- `opt.apply(cfg)` -/
+def applyOpt (env : Env) (cfg : Cfg) : Opt → Cfg
+  | .withSchemaURL s => { cfg with schemaURL := s }
+  | o => { cfg with detectors := cfg.detectors ++ optDetectors env o }
+
+/-- `New(ctx, opts...)`: options applied in order, then `detect` from `&Resource{schemaURL: cfg.schemaURL}` -/
+def newResource (env : Env) (opts : List Opt) : DetState :=
+  let cfg := opts.foldl (applyOpt env) {}
+  detect cfg.schemaURL cfg.detectors
+
 end C19
 end Otel
